@@ -15,6 +15,7 @@ def run(prog, rep, tier):
     apply(rep, "I1", "cooked DIEs derived inside a unit keep the import chain", r_dw.i1(prog), 10)
     apply(rep, "I1c", "import chain and iterator stack move in lockstep", r_dw.i1c(prog), 2)
     apply(rep, "I1b", "the parent takes context and import chain from the climbing cursor", r_dw.i1b(prog), 1)
+    apply(rep, "M2", "`unit` on a Dwarf lists each unit exactly once, in order, with its own Dwarf_CU and offset", r_dw.m2(prog, tier), 1)
     import r_order
     apply(rep, "O7", "units compare equal exactly when they are the same unit (`unit` of a DIE is the unit that lists it, also across a file and its alt file)", r_order.o7(prog), 2)
     rep.notes.append("exemption: op_cooked_die::operate (reason in rules/r_dw.py I1_EXEMPT)")
